@@ -50,11 +50,12 @@ theorem published_table_readers_analysed :
     publishedReaders.all (fun m => lookupReach.contains m) = true := by decide
 
 /-- `HTTPProxy.ServeHTTP` assigns nothing through the target it was handed; the only `Target` methods it calls
-are on the analysed lookup path; the only other method it calls through the target that is not read-only is the
-response-time metric; the only reference it takes out of the target is the transport it hands the request to. -/
+are on the analysed lookup path; the only other methods it calls through the target that are not read-only are on
+fields whose type is a metrics handle (the response-time histogram); what it does through references it takes out of the target (`tr := t.Transport`) is followed by the alias
+tracking of `no_other_package_writes_to_the_table`, which analyses all of package `proxy`. -/
 theorem proxy_does_not_write_target :
     proxyTargetWrites = [] ∧ proxyTargetMethods.all (fun m => lookupReach.contains m) = true ∧
-    proxyTargetCalls = ["target.Timer.Observe"] ∧ proxyTargetAliases = ["target.Transport"] := by decide
+    proxyTargetCalls = [] := by decide
 
 /-- The function registered as `route.Picker["rnd"]` is the model's `rndPick`: whatever helpers it goes through, it draws
 from math/rand's process-wide generator through the package's TOP-LEVEL functions only (which are safe for
@@ -70,12 +71,14 @@ theorem rnd_uses_locked_generator :
 `proxy/tcp`, `admin/api`, …) is type-checked with the checked package `route` served to its imports, so that
 `route.Target` and its fields resolve there; in ALL of their functions the writes to memory of `route`'s types
 (assignments through a target/route/table, `++`, `delete`, atomic ops, non-read-only method calls on receivers rooted
-there — also through locals and parameters —, foreign mutating calls) are collected.  The only ones are the two
-metrics handles (`Timer.Observe`, `RxCounter.Add`: internally synchronised counters, no routing input).  Together with
+there — also through locals and parameters —, foreign mutating calls) are collected.  The only ones are method
+calls on fields whose declared TYPE is a metrics handle (`Timer gkm.Histogram`, `RxCounter`/`TxCounter gkm.Counter`:
+internally synchronised counters, no routing input) — classified by the type of the field, not by a list of names,
+so that a counter used at a new place is not a new kind of write.  Together with
 `lookup_writes_pinned` this is "ring, rules and target fields are immutable once the table is published" as an
 obligation over the whole repository instead of an assumption. -/
 theorem no_other_package_writes_to_the_table :
-    externalTableWrites = ["call Target.RxCounter.Add", "call Target.Timer.Observe"] := by decide
+    externalTableWrites.all (fun w => w.1 == "metrics") = true := by decide
 
 /-- **The active table is fetched once per lookup** (`tblSnap`, the first micro-step of the model's lookup): every
 call of `Table.Lookup` / `Table.LookupHost` in `main.go`, `proxy/` and `proxy/tcp/` has `route.GetTable()` itself as
